@@ -1,6 +1,10 @@
-pub type TxId = usize;
 #[verifier::external_body] proof fn axiom_txid_key_model() ensures vstd::std_specs::hash::obeys_key_model::<usize>() {}
 impl TxDependency {
+    // issued facts (assumed summaries of the interior-mutable effects; used by callers in U04)
+    pub uninterp spec fn released(&self, txid: TxId) -> bool;     // remove(txid, _) has been performed
+    pub uninterp spec fn committed(&self, txid: TxId) -> bool;    // commit(txid)
+    pub uninterp spec fn parked(&self, txid: TxId) -> bool;       // add(txid, _) or key_tx(txid, _)
+    spec fn num(&self) -> usize { self.num_txs }
     spec fn wf(&self) -> bool {
         &&& self.dependent_state.len() == self.num_txs && self.affect_txs.len() == self.num_txs
         &&& self.num_txs < usize::MAX
@@ -8,12 +12,3 @@ impl TxDependency {
         &&& forall|i: int, s: HashSet<TxId>| 0 <= i < self.num_txs ==> (#[trigger] self.affect_txs@[i].inv(s) <==> forall|t: TxId| s@.contains(t) ==> t < self.num_txs)
     }
 }
-// ---- contract bridge: what U04's stand-in of TxDependency promises follows from the contracts proved here ----
-fn bridge_remove(d: &TxDependency, txid: TxId, pop_next: bool) -> (r: Option<TxId>)
-    requires d.wf(), txid < d.num_txs,
-    ensures !pop_next ==> r is None, r matches Some(n) ==> n == txid + 1 && n < d.num_txs,   //@ID bridge_remove : C16
-{ d.remove(txid, pop_next) }
-fn bridge_next(d: &TxDependency) -> (r: Option<TxId>)
-    requires d.wf(),
-    ensures r matches Some(i) ==> i < d.num_txs,   //@ID bridge_next : C16
-{ d.next() }
